@@ -776,6 +776,11 @@ func (obj *SparseReal64MatrixJointIterator) Ok() bool {
          !(obj.s2 == nil || obj.s2.GetFloat64() == float64(0))
 }
 func (obj *SparseReal64MatrixJointIterator) Next() {
+  // skip positions where both operands hold a zero
+  for obj.next() && !obj.Ok() {
+  }
+}
+func (obj *SparseReal64MatrixJointIterator) next() bool {
   ok1 := obj.it1.Ok()
   ok2 := obj.it2.Ok()
   obj.s1 = nil
@@ -803,6 +808,7 @@ func (obj *SparseReal64MatrixJointIterator) Next() {
   } else {
     obj.s2 = ConstFloat64(0.0)
   }
+  return ok1 || ok2
 }
 func (obj *SparseReal64MatrixJointIterator) Get() (Scalar, ConstScalar) {
   if obj.s1 == nil {
